@@ -1559,3 +1559,44 @@ Proof.
       by (rewrite firstn_length; unfold zlen in Hl; lia).
     rewrite Hfl, N2Nat.id, N.eqb_refl. unfold right_pad. now rewrite Hfl.
 Qed.
+
+(* ------------------------------------------------------------------ *)
+(* canonical prefix for a dynamic leaf under the canonical-offset       *)
+(* hypothesis: bytes/string as sole argument, offset word = 32          *)
+
+Lemma canonical_bytes l rest :
+  0 <= l <= zlen rest -> zlen rest + 64 < 2 ^ 63 ->
+  let out := pack_num 32 ++ pack_num l ++ rest in
+  let c := firstn (Z.to_nat l) rest in
+  unpack_args [TBytes] out = Ok [VBytes c] /\
+  pack_args [TBytes] [VBytes c] =
+    Ok (pack_num 32 ++ pack_num l ++ c ++ zeros (Z.to_nat ((32 - l mod 32) mod 32))).
+Proof.
+  intros Hl Hb out c.
+  assert (Hc : zlen c = l).
+  { unfold c, zlen in *. rewrite firstn_length. lia. }
+  assert (Hrest : rest = c ++ skipn (Z.to_nat l) rest) by (unfold c; now rewrite firstn_skipn).
+  assert (Hout : zlen out < 2 ^ 63).
+  { unfold out. rewrite !zlen_app, !zlen_pack_num. lia. }
+  assert (Hw : at_off out 0 (pack_num 32)) by (apply at_off_0).
+  assert (Hbody : at_off out 32 (pack_num l ++ rest)).
+  { exists (pack_num 32), (@nil N). split; [unfold out; now rewrite app_nil_r|apply zlen_pack_num]. }
+  split.
+  - unfold unpack_args, unpack_values. destruct out as [|x o'] eqn:Eo.
+    { exfalso. unfold out in Eo. pose proof (zlen_pack_num 32) as Z32.
+      destruct (pack_num 32); [rewrite zlen_nil in Z32; lia|discriminate]. }
+    rewrite <- Eo in *. cbn [unpack_fields]. cbn [Z.add Z.mul].
+    cbn [to_go_type].
+    pose proof (at_off_bound _ _ _ Hw) as Bw. rewrite zlen_pack_num in Bw.
+    replace (0 + 32 >? zlen out) with false by lia.
+    rewrite (lpp_placed out 0 32 l rest Hout Hw Hbody Hl). cbn [bind].
+    apply at_off_app_r in Hbody. rewrite zlen_pack_num in Hbody.
+    rewrite Hrest in Hbody. apply at_off_app_l in Hbody.
+    pose proof (at_off_slice _ _ _ Hbody) as S. rewrite Hc in S.
+    change (32 + 32) with 64 in *. rewrite S. reflexivity.
+  - unfold pack_args. cbn [pack_fields pack pack_element bind dynamic].
+    cbn [map type_size zsum fold_right pack_loop]. cbn [app].
+    change (32 + 0) with 32. do 2 f_equal.
+    rewrite pack_bytes_spec. unfold spec_bytes. rewrite Hc.
+    now rewrite <- pack_num_spec by lia.
+Qed.
